@@ -67,8 +67,25 @@ type EpochsContext struct {
 	TotalActiveStakeSqRoot Gwei
 }
 
+// WrappedBeaconState is implemented by states that wrap a fork-specific state, e.g. an upgradeable state.
+type WrappedBeaconState interface {
+	Unwrap() BeaconState
+}
+
+// unwrapState returns the fork-specific state, which may implement optional interfaces the wrapper does not.
+func unwrapState(state BeaconState) BeaconState {
+	for {
+		w, ok := state.(WrappedBeaconState)
+		if !ok {
+			return state
+		}
+		state = w.Unwrap()
+	}
+}
+
 // NewEpochsContext constructs a new context for the processing of the current epoch.
 func NewEpochsContext(spec *Spec, state BeaconState) (*EpochsContext, error) {
+	state = unwrapState(state)
 	vals, err := state.Validators()
 	if err != nil {
 		return nil, err
@@ -206,6 +223,7 @@ func (epc *EpochsContext) Clone() *EpochsContext {
 }
 
 func (epc *EpochsContext) RotateEpochs(state BeaconState) error {
+	state = unwrapState(state)
 	epc.PreviousEpoch = epc.CurrentEpoch
 	epc.CurrentEpoch = epc.NextEpoch
 	nextEpoch := epc.CurrentEpoch.Epoch + 1
